@@ -90,3 +90,58 @@ func VerifC14_stopSessionDiscardThenPoll() {
 	verifAssert(c.bufferedRecords.Load() == 0 && c.bufferedBytes.Load() == 0, "fetch gauges return to zero")
 	verifReached("c14-stop-session")
 }
+
+// Two pollers: A has taken two sources and is inside its unbuffered-hook dispatch (user hooks
+// may be slow: the hook yields) when B takes two more sources and dispatches its own. Each
+// queued dispatch runs exactly once — every record of all four sources is unbuffered exactly
+// once, as polled — whatever the interleaving (2 delays; thorough 3).
+type verifC14YieldHook struct {
+	unbuf map[*Record]int
+}
+
+func (h *verifC14YieldHook) OnFetchRecordBuffered(r *Record) {}
+func (h *verifC14YieldHook) OnFetchRecordUnbuffered(r *Record, polled bool) {
+	h.unbuf[r]++
+	verifYield()
+}
+
+func VerifC14_concurrentPollersDeferredHooks() {
+	delays := 2
+	if verifThorough() {
+		delays = 3
+	}
+	verifPreemptions(delays)
+	cl := &Client{}
+	cl.cfg.logger = new(nopLogger)
+	hk := &verifC14YieldHook{unbuf: map[*Record]int{}}
+	cl.cfg.hooks = hooks{hk}
+	cl.ctx = context.Background()
+	c := &cl.consumer
+	c.cl = cl
+	var recs []*Record
+	take := func(i int) {
+		s, r := verifC14Source(cl, []string{"a", "b", "c", "d"}[i], int64(10*(i+1)))
+		recs = append(recs, r)
+		c.sourcesReadyMu.Lock()
+		s.takeBuffered(nil)
+		c.sourcesReadyMu.Unlock()
+	}
+	take(0)
+	take(1)
+	doneA, doneB := false, false
+	go func() { c.runDeferredFetchHooks(); doneA = true }()
+	go func() {
+		take(2)
+		take(3)
+		c.runDeferredFetchHooks()
+		doneB = true
+	}()
+	verifRunAll()
+	c.runDeferredFetchHooks() // anything still queued is dispatched by the next poll
+	verifAssert(doneA && doneB, "both pollers finish")
+	for _, r := range recs {
+		verifAssert(hk.unbuf[r] == 1, "with concurrent pollers every polled record is unbuffered exactly once")
+	}
+	verifAssert(c.bufferedRecords.Load() == 0 && c.bufferedBytes.Load() == 0, "fetch gauges return to zero")
+	verifReached("c14-concurrent-pollers")
+}
